@@ -194,6 +194,38 @@ def code_like_texts(check, tier):
     s.done()
 
 
+def env_sample():
+    """(runs in a child interpreter) a fixed sample of run / attribute combinations rendered and judged: -> list of [runs, detail]"""
+    dicts = [d for i, d in enumerate(R.all_dicts(False)) if i % 211 == 0] + [{"fg": 31}, {"bg": 44}, {"fg": 34, "bg": 41, "bold": True}, {"underline": True}]
+    out = []
+    for t in ["x", "a b", "line1\nline2", "31", "\uff25"]:
+        for d in dicts:
+            for runs in ([[t, d]], [["p", {"fg": 32}], [t, d]]):
+                r = run_case(runs, derive=True)
+                if r:
+                    out.append([runs, r])
+                    if len(out) >= 5:
+                        return out
+    return out
+
+
+def environments(check, tier):
+    """what str(f) writes does not depend on the process environment (NO_COLOR, TERM, CLICOLOR ..., locale): the FmtStr says what is shown"""
+    from bounded.common import ENVIRONMENTS, run_in_environment
+    s = Suite(check, "C01.environments", f"a fixed sample of values rendered and judged in {len(ENVIRONMENTS)} fresh interpreters, each with other environment "
+              "variables set before curtsies is imported (NO_COLOR, TERM=dumb / rxvt / linux / empty, CLICOLOR, FORCE_COLOR, COLORTERM, LC_ALL=C, "
+              "PYTHONOPTIMIZE, COLUMNS / LINES)", bound=f"{len(ENVIRONMENTS)} environments", exhaustive=False)
+    for env in ENVIRONMENTS:
+        s.case(tuple(sorted(env.items())), sample=dict(env))
+        ran, res = run_in_environment("props.C01", "env_sample", env)
+        if not ran:
+            check.note(f"C01.environments: child under {env} did not run: {res}")
+            continue
+        for runs, d in res[:3]:
+            s.fail("C01.render.environment", dict(environment=env, runs=runs), d[:300])
+    s.done()
+
+
 def derived(check, tier, seed):
     from bounded.derived import derived_values
     n = 12000 if tier == "thorough" else 1500
@@ -335,4 +367,5 @@ def run(check, tier, seed):
     derived(check, tier, seed)
     interrupted(check, tier)
     code_like_texts(check, tier)
+    environments(check, tier)
     histories(check, tier, seed)
